@@ -1108,9 +1108,9 @@ def hughes(C: np.ndarray) -> np.ndarray:
     Q = np.zeros((C.shape[0], 4))
     Q[:, 0] = 0.5*np.sqrt(1.0 + tr)             # (eq. 15)
     Q_w = np.where(np.isclose(Q[:, 0], 0.0), 1.0, Q[:, 0])  # Vector parts divided by one, when pure quaternion
-    Q[:, 1] = np.array(C[:, 1, 2]-C[:, 2, 1])   # (eq. 16)
-    Q[:, 2] = np.array(C[:, 2, 0]-C[:, 0, 2])
-    Q[:, 3] = np.array(C[:, 0, 1]-C[:, 1, 0])
+    Q[:, 1] = np.array(C[:, 2, 1]-C[:, 1, 2])   # (eq. 16)
+    Q[:, 2] = np.array(C[:, 0, 2]-C[:, 2, 0])
+    Q[:, 3] = np.array(C[:, 1, 0]-C[:, 0, 1])
     Q[:, 1:] /= 4.0*Q_w[:, None]
     return Q
 
